@@ -54,6 +54,7 @@ ASSUMPTIONS = [
     "configurations whose pad_bar padding is not a whole number of ticks are not generated",
 ]
 CHUNK = 4
+CALL_TIMEOUT = 6.0
 
 _TMP = None
 
@@ -70,6 +71,17 @@ def _cleanup():
     if _TMP is not None:
         shutil.rmtree(_TMP, ignore_errors=True)
         _TMP = None
+
+
+def timed(fn, *a, **kw):
+    """run one call of the implementation under its own watchdog (the runner's alarm handler raises Hang)"""
+    import signal
+
+    signal.setitimer(signal.ITIMER_REAL, CALL_TIMEOUT)
+    try:
+        return fn(*a, **kw)
+    finally:
+        signal.setitimer(signal.ITIMER_REAL, 0)
 
 
 def fr(x):
@@ -261,20 +273,21 @@ def run_config(res, spec, model, sc, cfg, ctx, keep=None):
     res.transitions += 1
     try:
         if out == "none":
-            mf_ret = save_score_midi(data, None, **kw)
+            mf_ret = timed(save_score_midi, data, None, **kw)
             if mf_ret is None:
                 res.fail("export-runs", expected="a MidiFile", observed=None, where="save_score_midi", detail=detail)
                 return "export-none"
             mf_ret.save(path)
         elif out == "fobj":
             with open(path, "wb") as f:
-                r = save_score_midi(data, f, **kw)
+                r = timed(save_score_midi, data, f, **kw)
             mf_ret = None
         else:
-            r = save_score_midi(data, path, **kw)
+            r = timed(save_score_midi, data, path, **kw)
             mf_ret = None
-    except Hang:
-        raise
+    except Hang as e:
+        res.fail("export-runs", kind="hang", where="save_score_midi", observed=str(e), detail=detail)
+        return "export-hang"
     except Exception as e:  # noqa
         res.fail("export-runs", kind="exception", where=innermost_partitura_frame(e), observed=exc_text(e), detail=detail)
         return "export-exception"
@@ -347,6 +360,11 @@ def run_config(res, spec, model, sc, cfg, ctx, keep=None):
     if vels and vels != [want_vel]:
         res.fail("velocity", expected=want_vel, observed=vels, where="save_score_midi: note_on velocity", detail=detail)
     # --- time signatures per track
+    invalid = [(i, e) for i, tr in enumerate(raw) for e in tr["ts"] if e[1] < 1]
+    if invalid:
+        res.fail("time-signatures", expected="numerator >= 1 in every time signature event", observed=js(invalid[:4]),
+                 where="save_score_midi: time_signature events", detail=detail + " (track, (tick, numerator, denominator))")
+        return outcome + "/invalid-time-signature"  # not fed to the importer
     for i, tr in enumerate(raw):
         if not tr["notes"]:
             continue
@@ -360,14 +378,15 @@ def run_config(res, spec, model, sc, cfg, ctx, keep=None):
     res.transitions += 1
     try:
         if out == "none":
-            sc2 = load_score_midi(mf_ret, part_voice_assign_mode=mode)
+            sc2 = timed(load_score_midi, mf_ret, part_voice_assign_mode=mode)
         elif out == "fobj" and mode == 0:
-            sc2 = partitura.load_score(path)
+            sc2 = timed(partitura.load_score, path)
         else:
-            sc2 = load_score_midi(path, part_voice_assign_mode=mode)
+            sc2 = timed(load_score_midi, path, part_voice_assign_mode=mode)
         items = read_import(sc2)
-    except Hang:
-        raise
+    except Hang as e:
+        res.fail("import-runs", kind="hang", where="load_score_midi", observed=str(e), detail=detail)
+        return outcome + "/import-hang"
     except Exception as e:  # noqa
         res.fail("import-runs", kind="exception", where=innermost_partitura_frame(e), observed=exc_text(e), detail=detail)
         return outcome + "/import-exception"
@@ -383,15 +402,17 @@ def run_config(res, spec, model, sc, cfg, ctx, keep=None):
                  detail=detail + " imported divisions=%r" % ([p["d"] for p in parts],))
         return outcome + "/reimport-notes-mismatch"
     # grouping: top-level items > parts > voices > notes, with the key signatures of each part
+    # (key signature events carry no channel: an imported part shows those of every part written to its track)
+    ks_by_track = {}
+    for n in exp["notes"]:
+        ks_by_track.setdefault(n["tr"], set()).update((t / ppq, f, m) for t, f, m in exp["ks"][n["part"]])
     e_items = {}
     for n in exp["notes"]:
-        pm_idx = n["part"]
         top, prt, vc = n["imp"]
         it = e_items.setdefault(top, {})
         pp = it.setdefault(prt, dict(v={}, ks=set()))
         pp["v"].setdefault(vc, []).append((n["on"] / ppq, (n["off"] - n["on"]) / ppq, n["pitch"]))
-        for t, f, m in exp["ks"][pm_idx]:
-            pp["ks"].add((t / ppq, f, m))
+        pp["ks"].update(ks_by_track[n["tr"]])
     kind = "group" if mode == 1 else "part"
     e_canon = sorted([kind, sorted([sorted(sorted(v) for v in pp["v"].values()), sorted(pp["ks"])] for pp in it.values())]
                      for it in e_items.values())
@@ -441,8 +462,6 @@ def run_config(res, spec, model, sc, cfg, ctx, keep=None):
                    for a, b in zip(got, ref)):
                 res.fail("reimport-note-array", expected=ref[:6], observed=got[:6], where="Part.note_array of imported part",
                          detail=detail + " part %d" % i)
-    except Hang:
-        raise
     except Exception as e:  # noqa
         res.fail("reimport-note-array", kind="exception", where=innermost_partitura_frame(e), observed=exc_text(e), detail=detail)
     return outcome
@@ -492,11 +511,15 @@ def _pad_ok(model, minppq):
     return (model.ppq(minppq) * model.origin("pad_bar")).denominator == 1
 
 
-def with_configs(gen, cfg_fn):
+def with_configs(gen, cfg_fn, fractional=False):
     i = 0
     for c in gen:
         model = M.Model(c["score"])
         cfgs = [cfg for cfg in cfg_fn(i, model) if cfg[1] != "pad_bar" or _pad_ok(model, cfg[2])]
+        if not fractional and model.fractional_measures():
+            # time_sig_change on a measure with a fractional number of beats is a documented TODO of the
+            # exporter; those scores meet that policy only in the sub-space tsc-fractional
+            cfgs = [cfg for cfg in cfgs if cfg[1] != "time_sig_change"]
         c = dict(c)
         c["configs"] = [list(x) for x in cfgs]
         i += 1
@@ -603,6 +626,10 @@ def spaces(tier, seed):
                     "3 scores x output {path, returned MidiFile, file object} x input {Score, list, single Part/PartGroup} x "
                     "velocity {default,1,64,100,127} x minimum_ppq {0,1,L,L+1,2L,2L+1,7,480,960}; modes and shift/pad_bar cycled; "
                     "file-object cases of mode 0 are imported through partitura.load_score"))
+    sp.append(Space("tsc-fractional", lambda: with_configs(gen_fractional(), cfg_fractional, fractional=True), True,
+                    "4/4, 2/2, 6/8 with divisions {1,2}: every pickup whose length is not a whole number of beats, policy "
+                    "time_sig_change only (modes 0 and 4); notes, key signatures and tempo are compared, the time signature "
+                    "of the fractional measure is not (documented TODO), but every written signature must be valid"))
     if quick:
         core = ["trip3", "e38", "trip12"]
         for s in core:
@@ -626,11 +653,28 @@ def spaces(tier, seed):
     return sp
 
 
-def _fractional_beat_measure(case, v):
-    return False
+def gen_fractional():
+    for c in M.gen_pickup([1, 2], variants=("plain",)):
+        m = M.Model(c["score"])
+        fm = m.fractional_measures()
+        if fm and c["tag"].split()[1] in ("4/4", "2/2", "6/8"):
+            yield c
 
 
-TRIGGERS = {}
+def cfg_fractional(i, model):
+    return [(0, "time_sig_change", 0, 64, "path", "score"), (4, "time_sig_change", 7, 64, "none", "score")]
+
+
+def _tsc_measure_shorter_than_a_beat(case, v):
+    """known finding: time_sig_change writes int(number of beats) as numerator; a measure shorter than one
+    beat gives a time signature 0/x (which load_score_midi cannot digest)"""
+    if "'time_sig_change'" not in v.get("detail", ""):
+        return False
+    m = M.Model(case["score"])
+    return any(b < 1 for _, _, _, b in m.fractional_measures())
+
+
+TRIGGERS = {"tsc_measure_shorter_than_a_beat": _tsc_measure_shorter_than_a_beat}
 
 if __name__ == "__main__":
     import checks.c04 as _m
